@@ -13,6 +13,10 @@ spelling and in the other spellings Excel reads as the same value: numerals
 with leading zeros, logicals in lower case); the result must be the defined
 value, type-exact.  A result marked <<"U", kind>> by the spec (outside the
 exactly-modelled fragment) is only checked for totality and counted.
+The pool holds text that spells a logical ("TRUE", "true", "False", " FALSE";
+the sampled pool: both words in random case, with and without spaces around):
+text to every operator, so #VALUE! to arithmetic (Operators!ArithS, law
+WordIsText), while the logical TRUE counts as 1.
 The pool holds text spelled like an error value ("#REF!", "#N/A", "#EMPTY!"):
 text to Excel, the error value to pycel (one representation).  The spec
 exports, next to the defined result, the result under that reading
@@ -255,7 +259,7 @@ def evaluate_cells(cells, targets):
 JVM = {'JAVA_TOOL_OPTIONS': '-XX:ParallelGCThreads=2 -XX:CICompilerCount=2'}
 
 
-def run_tlc(v, module, cfg, spec_dir, label, library=None, workers=8):
+def run_tlc(v, module, cfg, spec_dir, label, library=None, workers=4):
     res = tlc.run(module, cfg, spec_dir=spec_dir, workers=workers, timeout=1500,
                   library=library, heap='4g', env=JVM)
     if not res.ok:
@@ -544,11 +548,12 @@ def tla_value(val):
     raise ValueError(val)
 
 
-def sampled_pool(rnd, n_num=13, n_numtext=9, n_miss=6, n_word=7):
+def sampled_pool(rnd, n_num=13, n_numtext=9, n_miss=6, n_word=7, n_logical=3):
     """numbers of moderate magnitude with a finite decimal spelling, numeric
     text of the strict grammar, near misses, words in mixed case (letters
-    that cannot form a month name, AM/PM, TRUE/FALSE), logicals, blank, two
-    errors"""
+    that cannot form a month name, AM/PM, TRUE/FALSE), text that spells a
+    logical in mixed case (with spaces around it or not), logicals, blank,
+    two errors"""
     def num():
         kind = rnd.randrange(4)
         if kind == 0:
@@ -590,6 +595,12 @@ def sampled_pool(rnd, n_num=13, n_numtext=9, n_miss=6, n_word=7):
             s += str(rnd.randint(0, 9))
         return S(s)
 
+    def logical_word():
+        s = ''.join(ch.upper() if rnd.random() < 0.5 else ch
+                    for ch in rnd.choice(('true', 'false')))
+        return S(' ' * rnd.randrange(3) * (rnd.random() < 0.3) + s
+                 + ' ' * rnd.randrange(3) * (rnd.random() < 0.3))
+
     pool, seen = [], set()
 
     def add(val):
@@ -597,7 +608,8 @@ def sampled_pool(rnd, n_num=13, n_numtext=9, n_miss=6, n_word=7):
         if k not in seen:
             seen.add(k)
             pool.append(val)
-    for gen, cnt in ((num, n_num), (numtext, n_numtext), (word, n_word)):
+    for gen, cnt in ((num, n_num), (numtext, n_numtext), (word, n_word),
+                     (logical_word, n_logical)):
         tries = 0
         start = len(pool)
         while len(pool) - start < cnt and tries < 200:
@@ -677,7 +689,7 @@ def run(tier, seed):
                     'order of two unequal texts unless both consist of letters, '
                     'digits, space and full stop (collation)',
                     'text with % $ , / : ( ) \' or control characters, inner spaces '
-                    'or hyphens, the words TRUE/FALSE as text in arithmetic',
+                    'or hyphens',
                     'rendering of non-terminating fractions and of magnitudes '
                     'below 1E-4 in &',
                     'powers whose magnitude cannot be bounded away from 1.8E308 '
